@@ -128,7 +128,11 @@ func (w *world) minStrength() {
 	}
 	// a genuine key whose exponent field alone is changed (inconsistent, but the public key is "valid")
 	for _, pn := range []string{"RSASSAPKCS1-3072-SHA256.pub", "RSASSAPSS-3072-SHA256-raw.pub", "JWT-RS256-2048.pub", "JWT-PS256-2048-raw.pub"} {
-		for _, e := range [][]byte{{3}, {1}, {1, 0, 0}, {1, 0, 3}, {1, 0, 1, 0}, {}} {
+		for _, e := range [][]byte{{3}, {1}, {1, 0, 0}, {1, 0, 3}, {1, 0, 1, 0}, {},
+			// exponents that do not fit 64 bits and whose low 64 bits are 65537 (a parser that converts through
+			// int64 without a range check reads them as F4), and other over-long encodings
+			{1, 0, 0, 0, 0, 0, 0, 1, 0, 1}, {1, 0, 0, 0, 0, 0, 0, 0, 1, 0, 1}, {0xff, 0, 0, 0, 0, 0, 0, 0, 1, 0, 1},
+			{1, 0, 0, 0, 0, 0, 0, 0, 0, 0, 0, 0, 0, 0, 0, 0, 0, 1, 0, 1}, {0x80, 0, 0, 0, 0, 1, 0, 1}, {1, 0, 0, 0, 0, 1, 0, 1}} {
 			add("rsa-modulus/exponent", fmt.Sprintf("e=%x", e), pn, true, map[string]any{"e": e})
 		}
 	}
